@@ -39,9 +39,9 @@ func vfCheckCell(c *Cell, item interface{}, want string, tag string) {
 
 // Items of the basic kinds.
 func VerifC01_basic() {
-	L := 3
+	L, L2 := 3, 2
 	if vfTier() == 1 {
-		L = 4
+		L, L2 = 8, 5
 	}
 	var item interface{}
 	want := ""
@@ -56,11 +56,11 @@ func VerifC01_basic() {
 		item, want = r, string(r)
 		vfTag("rune")
 	case 3:
-		s := vfString("s", 2, vfBYTES)
+		s := vfString("s", L2, vfBYTES)
 		inner := NewCell(s)
 		item, want = inner, s
 	case 4:
-		s := vfString("s", 2, vfBYTES)
+		s := vfString("s", L2, vfBYTES)
 		item, want = vfNamedString(s), s
 	case 5:
 		i := vfInt("i", -11, 10)
@@ -95,7 +95,7 @@ func VerifC01_basic() {
 func VerifC01_methodsets() {
 	L := 2
 	if vfTier() == 1 {
-		L = 3
+		L = 5
 	}
 	m := vfChoice("mask", 32)
 	// the text the precedence selects is an arbitrary string of up to L bytes; the texts of the
@@ -157,8 +157,12 @@ func (x *vfPtrText) String() string { return x.s }
 // VerifC01_shared: items stored by value (struct, array) that share state with the caller are
 // re-read on Update like any other item; cells stored as items through the table API are kept as cells.
 func VerifC01_shared() {
-	s1 := vfString("s1", 2, vfBYTES)
-	s2 := vfString("s2", 2, vfBYTES)
+	LS := 2
+	if vfTier() == 1 {
+		LS = 4
+	}
+	s1 := vfString("s1", LS, vfBYTES)
+	s2 := vfString("s2", LS, vfBYTES)
 	switch vfChoice("kind", 3) {
 	case 0:
 		text := s1
@@ -255,4 +259,35 @@ func VerifC01_typednil() {
 	vfAssert(c.Empty() == (want == ""), "empty-iff-text-empty")
 	vfAssert(c.TerminalCellWidth() == len(want), "width-of-that-text")
 	vfObserveStr("text", c.String())
+}
+
+// VerifC01_sequence: the text of a cell depends on its own item only, not on which items were put in
+// other cells earlier in the process: items that compare equal as interface values but print
+// differently (the two signed zeros of a float type), items of different types with the same value,
+// and NaN (never equal to itself).
+func VerifC01_sequence() {
+	z64 := 0.0
+	z32 := float32(0)
+	nan := z64 / z64
+	items := []interface{}{z64, -z64, z32, -z32, 0, int8(0), uint8(0), false, nan, "0", int64(-0)}
+	wants := []string{"0", "-0", "0", "-0", "0", "0", "0", "false", "NaN", "0", "0"}
+	i := vfChoice("first", len(items))
+	j := vfChoice("second", len(items))
+	a := NewCell(items[i])
+	b := NewCell(items[j])
+	vfAssert(a.String() == wants[i], "text")
+	vfAssert(b.String() == wants[j], "text-independent-of-earlier-cells")
+	t := New()
+	t.AddRowItems(items[i], items[j], items[i])
+	for k, w := range []string{wants[i], wants[j], wants[i]} {
+		c, err := t.CellAt(CellLocation{Row: 1, Column: k + 1})
+		vfAssert(err == nil, "cell-found")
+		if err == nil {
+			vfAssert(c.String() == w, "text-independent-of-earlier-cells")
+			c.Update()
+			vfAssert(c.String() == w, "text-independent-of-earlier-cells")
+		}
+	}
+	vfObserveStr("a", a.String())
+	vfObserveStr("b", b.String())
 }
